@@ -18,10 +18,13 @@
      * WHOLE HISTORY (TreeWhole.v): after fit followed by any number of partial_fit calls (the trees are fitted once per arm and only applied
        afterwards: one leaf function), the rewards filed for arm a under leaf lf are EXACTLY the (binarizer-converted) rewards of the observations
        of the whole history since that fit whose decision is a and whose context falls into leaf lf, in arrival order - a filter of the history.
+     * WHOLE HISTORY, Clusters (CluWhole.v): after fit and any number of partial_fit calls the stored history is the concatenation of the batches (rewards
+       converted once) and the policy of cluster c after the last call is the policy AS CONSTRUCTED (Forget.v) trained on exactly the observations of that
+       whole history whose k-means label is c, in stored order.
     Findings D6 / D7 concern the leaf policies' binarizer and generator;
     finding D19: Clusters.remove_arm does not purge the stored history (a re-added arm reports 0 until the next training call). *)
 From Coq Require Import List ZArith Bool Arith QArith Qcanon Permutation.
-From MW Require Import Num Assoc AssocFacts Rng Par CF CFInv CFClean CFForget CFSpec Matrix Lin Warm WarmInv Nbr NbrFacts NbrIndep LshFacts Clu Tree CellFacts Mab FacadeCF FacadeArms MoreFacts NumLaws CFAlg Sim Extra QcInst OrderFacts ExpIrrel LinInv FacadeLin LpInv NbrInv CluTreeInv FacadeAll ToyFacts C09All C10All LinForget LinSim MatrixFacts GaussJordan LinSpec NbrIndepGen CluIndep C17Lin WarmIdem C14More LshScale TreeLeaf Rename PopSpec CopyFacts StatFacts CluBatch LinWarm TreeWhole RowOrder.
+From MW Require Import Num Assoc AssocFacts Rng Par CF CFInv CFClean CFForget CFSpec Matrix Lin Warm WarmInv Nbr NbrFacts NbrIndep LshFacts Clu Tree CellFacts Mab FacadeCF FacadeArms MoreFacts NumLaws CFAlg Sim Extra QcInst OrderFacts ExpIrrel LinInv FacadeLin LpInv NbrInv CluTreeInv FacadeAll ToyFacts C09All C10All LinForget LinSim MatrixFacts GaussJordan LinSpec NbrIndepGen CluIndep C17Lin WarmIdem C14More LshScale TreeLeaf Rename PopSpec CopyFacts StatFacts CluBatch LinWarm TreeWhole RowOrder CluWhole Forget.
 Import ListNotations.
 
 Theorem C12_cluster_policy_trained_on_rows_with_its_label :
@@ -143,6 +146,41 @@ Theorem C12_tree_greedy_reports_the_leaf_mean_or_an_exploration_draw :
    else (spec_mean N [rewards], g1)).
 Proof. exact @leaf_expectation_greedy. Qed.
 Print Assumptions C12_tree_greedy_reports_the_leaf_mean_or_an_exploration_draw.
+
+Theorem C12_cluster_policy_is_trained_from_scratch_on_its_cell_of_the_whole_history :
+  forall (R A G : Type) (N : Num R) (aeqb : A -> A -> bool) (s : (@clu R A G)) (g : G) 
+    (ds : list A) (rs : list R) (cx : (@mat R)) (labels : list nat) (c : nat) (l : (@lp R A G)) 
+    (is_fit : bool),
+  clu_lps_inv N s ->
+  length (k_lps s) = k_n s ->
+  nth_error (fst (clu_binarize s ds rs)) c = Some l ->
+  let s' :=
+    fst
+      (if is_fit then clu_fit N aeqb s g ds rs cx labels else clu_partial_fit N aeqb s g ds rs cx labels)
+    in
+  nth_error (k_lps s') c =
+  Some
+    (fst
+       (lp_fit N aeqb (lp_forget N l) g (rows_with_label labels c (k_ds s'))
+          (rows_with_label labels c (k_rs s')) (rows_with_label labels c (k_cx s')))).
+Proof. exact @cluster_policy_is_trained_from_scratch_on_its_cell. Qed.
+Print Assumptions C12_cluster_policy_is_trained_from_scratch_on_its_cell_of_the_whole_history.
+
+Theorem C12_clusters_history_after_fit :
+  forall (R A G : Type) (N : Num R) (aeqb : A -> A -> bool) (s : (@clu R A G)) (g : G) 
+    (ds : list A) (rs : list R) (cx : (@mat R)) (labels : list nat),
+  let s' := fst (clu_fit N aeqb s g ds rs cx labels) in
+  k_ds s' = ds /\ k_rs s' = snd (clu_binarize s ds rs) /\ k_cx s' = cx.
+Proof. exact @clu_fit_history. Qed.
+Print Assumptions C12_clusters_history_after_fit.
+
+Theorem C12_clusters_history_after_partial_fit :
+  forall (R A G : Type) (N : Num R) (aeqb : A -> A -> bool) (s : (@clu R A G)) (g : G) 
+    (ds : list A) (rs : list R) (cx : (@mat R)) (labels : list nat),
+  let s' := fst (clu_partial_fit N aeqb s g ds rs cx labels) in
+  k_ds s' = k_ds s ++ ds /\ k_rs s' = k_rs s ++ snd (clu_binarize s ds rs) /\ k_cx s' = k_cx s ++ cx.
+Proof. exact @clu_partial_fit_history. Qed.
+Print Assumptions C12_clusters_history_after_partial_fit.
 
 Theorem C12_tree_cells_hold_the_filtered_history :
   forall (R A : Type) (aeqb : A -> A -> bool),
